@@ -138,6 +138,7 @@ struct env_thr_ops {
 	int (*wait)(struct env_wait *w);
 };
 extern struct env_thr_ops env_thr;
+extern int env_joined_threads;                   /* pthread_join calls made by the library */
 
 /* real zero-timeout poll of a wait descriptor set; returns like epoll_wait/poll */
 int env_real_poll0(struct env_wait *w);
